@@ -48,8 +48,30 @@ def selector_inv(rng):
     return inv, set()
 
 
+def badref_inv(rng):
+    """Several nodes share a class that holds a reference which does not parse: each of them fails, every
+    time it is rendered, whatever was rendered before; the other nodes render."""
+    inv = G.Inv()
+    bad = rng.choice(['${unclosed', 'x-${a:${b}', '${}', 'pre ${site:name'])
+    inv.classes[('common.yml',)] = G.doc([], ['capp'], ('m', [(S('motd'), S(bad)), (S('trace'), L(S('common')))]))
+    inv.classes[('base.yml',)] = G.doc([], ['bapp'], ('m', [(S('ok'), S('${_reclass_:name:short}')), (S('trace'), L(S('base')))]))
+    failing = set()
+    for j in range(rng.randint(3, 6)):
+        name = '%s%d' % (rng.choice('abz'), j)
+        if rng.random() < 0.5 or (j == 0):
+            inv.nodes[(name + '.yml',)] = G.doc(['base', 'common'], [], ('m', [(S('trace'), L(S('NODE')))]))
+            failing.add(name)
+        elif rng.random() < 0.3:
+            inv.nodes[(name + '.yml',)] = G.doc(['base'], [], ('m', [(S('own'), S(bad)), (S('trace'), L(S('NODE')))]))
+            failing.add(name)
+        else:
+            inv.nodes[(name + '.yml',)] = G.doc(['base'], [], ('m', [(S('trace'), L(S('NODE')))]))
+    inv.universe.update(['common', 'base'])
+    return inv, failing
+
+
 def run(tier, rng, C):
-    n = 30 if tier == 'quick' else 600
+    n = 36 if tier == 'quick' else 600
     threads = [1, 2, 3, 4, 8, 16]
     base_cases, lines_all, lines_nodes = [], [], []
     for i in range(n):
@@ -57,6 +79,8 @@ def run(tier, rng, C):
             inv, failing = symlink_inv(rng)
         elif i % 5 == 2:
             inv, failing = selector_inv(rng)
+        elif i % 6 == 1:
+            inv, failing = badref_inv(rng)
         else:
             inv, failing = P13.multi_node_inv(rng, fail=0.0 if i % 4 else 0.2)
         if i % 7 == 3 and not failing:
@@ -148,11 +172,50 @@ def run(tier, rng, C):
                                     % (j, order[j] if j < len(order) else '?', order),
                           'impl': C.describe(got[j] if j < len(got) else o)[:300], 'model': C.describe(exp[j])[:300] if j < len(exp) else '',
                           'size': len(c['line'])})
+    # the same on inventories with failing nodes: a node that fails keeps failing (same error) however often and
+    # after whatever other calls it is rendered, a node that renders keeps rendering to the same value
+    fseq_lines, fseq_want = [], {}
+    for c in base_cases:
+        if not c['failing']:
+            continue
+        names = sorted(('.'.join(p)[:-4] if c['inv'].compose else p[-1][:-4]) for p in c['inv'].nodes)
+        for rep in range(2):
+            order = names + names + [rng.choice(sorted(c['failing']))]
+            rng.shuffle(order)
+            order.insert(rng.randint(1, len(order)), '*')
+            cid = '%s_f%d' % (c['id'], rep)
+            fseq_lines.append(G.inv_line(cid, c['inv'], 'seq ' + G.strs(order)))
+            fseq_want[cid] = (c, order)
+    out = C.run_sharded(C.HARNESS, fseq_lines)
+    evals += len(fseq_lines)
+    for cid, (c, order) in fseq_want.items():
+        o = out.get(cid, '')
+        got = o[4:].split(' ;; ') if o.startswith('seq ') else []
+        bad = None
+        if len(got) != len(order):
+            bad = 'the sequence of calls did not complete: ' + C.describe(o)[:200]
+        else:
+            first = {}
+            for j, (nm, g) in enumerate(zip(order, got)):
+                if nm == '*':
+                    if not g.startswith('inv-err'):
+                        bad = 'call %d: the inventory with failing nodes %s rendered' % (j, sorted(c['failing']))
+                elif (nm in c['failing']) != (obs_kind(g) == 'err'):
+                    bad = 'call %d: node %s %s' % (j, nm, 'fails on a fresh instance but rendered here' if nm in c['failing']
+                                                   else 'renders on a fresh instance but failed here: ' + C.describe(g)[:200])
+                elif first.setdefault(nm, g) != g:
+                    bad = 'call %d: node %s gives a different result than at its first call' % (j, nm)
+                if bad:
+                    break
+        if bad:
+            fails.append({'key': 'render-depends-on-earlier-calls', 'severity': 'fail', 'show': c['show'] + ' calls: ' + ' '.join(order),
+                          'lines': [fseq_lines[list(fseq_want).index(cid)]], 'reason': bad, 'impl': C.describe(o)[:300],
+                          'size': len(c['line'])})
     res['failures'] = fails
     res['evaluations'] = evals
     res['rule'] = ('%d multi-node inventories: whole-inventory render in fresh processes with RAYON_NUM_THREADS in %s, %d times each, '
                    'compared with each other and with the model\'s single render; every node rendered alone twice in shuffled order '
-                   'and compared with its inventory entry; two shuffled sequences of render calls (with a whole-inventory render in between) on one instance compared call by call with fresh-instance renders; one inventory in five has a class file and a class directory reachable under two names through symlinks, with relative includes; one in five has nodes for which the same reference-bearing include entry resolves to an existing class or to a missing, ignored one; non-trivial = >= 2 nodes and >= 2 pool sizes (all)'
+                   'and compared with its inventory entry; two shuffled sequences of render calls (with a whole-inventory render in between) on one instance compared call by call with fresh-instance renders (on inventories with failing nodes: failing nodes keep failing, results repeat); one inventory in five has a class file and a class directory reachable under two names through symlinks, with relative includes; one in five has nodes for which the same reference-bearing include entry resolves to an existing class or to a missing, ignored one; non-trivial = >= 2 nodes and >= 2 pool sizes (all)'
                    % (n, threads, 2 if tier == 'quick' else 4))
     res['extra']['static_audit'] = static_audit()
     return res
